@@ -271,6 +271,8 @@ bool updateUnitMultiplier(const UnitsPtr &units, int direction, double &multipli
             }
         }
         multiplier += localMultiplier * direction;
+    } else if (isStandardUnit(units)) {
+        multiplier += standardMultiplierList.at(units->name()) * direction;
     }
 
     return true;
